@@ -63,6 +63,9 @@ void h_wake_all(void) {
   int r = Futex_wake_all__void(&f);
   for (unsigned i = 0; i < MAXN; ++i) if (i < b_n) __CPROVER_assert(b_resumed[i] == (want[i] ? 1u : 0u) && b_finished[i] == b_resumed[i], "K1 C13.wake_all resumes exactly the takeable waiters, once each");
   __CPROVER_assert((unsigned)r == expect && f._awaiter_head.next == 0, "K1 C13.wake_all count and empty list");
+  /* every node that was listed is marked unconnected (prev == 0), also the ones whose cancellation is in flight: their owner's
+   * remove_awaiter must find nothing to unlink, or it re-links the emptied head to nodes that are already gone */
+  for (unsigned i = 0; i < MAXN; ++i) if (i < b_n) __CPROVER_assert(b_node[i].__base_BasicNode.prev == 0, "K1 C13.wake_all leaves no former waiter connected to the list");
   __CPROVER_assert(0, "VF_VACUITY_TWIN lemma reachable (must fail)");
 }
 
